@@ -1002,3 +1002,32 @@ Lemma periodic_update_format : forall modify period c data remote ds,
 Proof.
   intros. apply periodic_updates_ok. unfold periodic_start, mk_frame, frame_ok; cbn. auto.
 Qed.
+
+(* ---- re-entrant callbacks (snapshot rule of Network.notify) ---- *)
+Lemma reentrant_dispatch_snapshot : forall scripts c data ts s,
+  snd (notify_re scripts c data ts s) = Ok (snd (notify c data ts s)) /\
+  snd (notify c data ts s) = map (fun h => (h, c, data, ts)) (abs (subs s) c).
+Proof.
+  intros. unfold notify_re, notify, live_list, abs; cbn.
+  destruct (lookup c (subs s)); split; reflexivity.
+Qed.
+
+Lemma dispatch_re_nil : forall l s, dispatch_re [] l s = s.
+Proof. induction l as [|h r IH]; intros; cbn; auto. destruct h; cbn; apply IH. Qed.
+
+Lemma step_re_nil : forall o s, step_re [] o s = step o s.
+Proof.
+  intros o s. destruct o; cbn [step_re step]; auto.
+  - unfold notify_re, notify, live_list. rewrite dispatch_re_nil. cbn.
+    destruct (lookup c (subs s)); reflexivity.
+  - unfold listener. destruct (f_err f || f_remote f); auto.
+    unfold notify_re, notify, live_list. rewrite dispatch_re_nil. cbn.
+    destruct (lookup (f_id f) (subs s)); reflexivity.
+Qed.
+
+(* a history without re-entrant callbacks is a plain history: the theorems above apply to it *)
+Lemma run_ops_re_nil : forall ops s, run_ops_re [] ops s = run_ops ops s.
+Proof.
+  induction ops as [|o r IH]; intros; cbn; auto.
+  rewrite step_re_nil. destruct (step o s) as [s1 x]. rewrite IH. reflexivity.
+Qed.
